@@ -5,7 +5,7 @@
    as VirtualISO.read sees it, [data path] being the bytes of the source file at [path];
    [flat_at] is the one byte function of an image (Spec/IsoReadSpec). *)
 From Verif Require Import Lib.Bytes Model.Path Model.Fs Gen.Consts Model.IsoRead Model.IsoBuild Spec.IsoReadSpec
-  Proofs.IsoReadProofs Proofs.IsoBuildProofs.
+  Proofs.IsoReadProofs Proofs.IsoBuildProofs Model.IsoDecode Proofs.IsoDecodeProofs.
 
 (* the files tile the space between the metadata area and the pad area, in scan order, each padded to a
    whole sector: exactly the precondition under which C09 proves every read to be a slice of flat_at *)
@@ -51,11 +51,28 @@ Theorem C07_names : forall name, forallb portable name = true ->
   make_identifier name false = map upper_byte name /\ make_identifier name true = utf16be name.
 Proof. exact portable_names_preserved. Qed.
 
+(* an independent reader (Model/IsoDecode: walk the extent record by record, a zero length byte skips to the next
+   sector) applied to any directory extent the builder wrote returns exactly the builder's records - location and
+   length (mod 2^32), the 7-byte recording time, flags, identifier - in order; so what C07_file_records says about
+   the records is what a reader of the image bytes sees *)
+Theorem C07_directory_decodes : forall es, Forall fits_byte es ->
+  decode_dir (2 * length es + 2) (pad_sector (entries_encode es 0)) 0 = map to_rrec es.
+Proof. exact directory_decodes. Qed.
+
+Theorem C07_built_directories_decode : forall root v ps3 gc now rnd bi, build_image root v ps3 gc now rnd = Ok bi ->
+  exists pre f_iso f_jol,
+    bi_fsbuf bi = pre ++ dirs_bytes f_iso ++ dirs_bytes f_jol /\
+    Forall (fun es => decode_dir (2 * length es + 2) (pad_sector (entries_encode es 0)) 0 = map to_rrec es
+                      /\ exists r, map rr_id (map to_rrec es) = [0] :: [1] :: r) (f_iso ++ f_jol).
+Proof. exact built_directories_decode. Qed.
+
 Print Assumptions C07_layout.
 Print Assumptions C07_file_bytes.
 Print Assumptions C07_file_records.
 Print Assumptions C07_served_bytes.
 Print Assumptions C07_names.
+Print Assumptions C07_directory_decodes.
+Print Assumptions C07_built_directories_decode.
 
 (* non-vacuity: a tree with an empty file, a 5-byte file, a sub-directory holding a 3000-byte file and a
    file of 4 GiB + 10 bytes (two extents) builds; sizes and locations as the layout rules give them *)
